@@ -443,7 +443,57 @@ def rolling_dims(V, **params):
     return c02.rolling_dims(V, **params)
 
 
-FUNCS = {"rolling_dims": rolling_dims, "ifm_fuse": ifm_fuse, "format_rules": format_rules, "buffering": buffering, "lut": lut, "wbuf": wbuf, "rolling": rolling, "lr_rolling": lr_rolling, "build_twice": build_twice, "memcpy": memcpy, "wbuf_sizes": wbuf_sizes}
+def lut_dma(V, C, nslices):
+    """the lookup table of an operation is (re)loaded before EVERY stripe of it: the REAL generate_high_level_commands_for_sched_op on an operation
+    with a LUT activation, symbolic OFM height, stripe height C and 1..2 depth slices.  lut.optimize_high_level_cmd_stream (lemma `lut`) only ever
+    REMOVES table DMAs it can prove redundant; when other stripes have overwritten the table's SHRAM slot in between (16-bank parts, cascades, slot
+    pressure) it relies on the generator having emitted a fresh DMA in front of the next stripe.  Claim: between the stripes of one row group and
+    the first stripe of the next there is a DMA of the table, and the first stripe is preceded by one."""
+    import ethosu.vela.high_level_command_stream_generator as gen
+    from ethosu.vela.high_level_command_stream import DMA, NpuStripe
+    from ethosu.vela.operation import Kernel, NpuBlockType, Op
+    from ethosu.vela.shape4d import Shape4D
+    from ethosu.vela.tensor import TensorPurpose, MemArea
+    from ethosu.vela.ethos_u55_regs.ethos_u55_regs import resampling_mode
+    from harness.c10 import _shims, _srange, _Obj
+
+    W, D = 8, 16 * nslices
+    H = V.int("H", 1, 12)
+    V.assume(L(H) <= 4 * C)
+    with core.shims(*(_shims() + ((gen, {"range": _srange(6), "min": core.smin, "max": core.smax}),))):
+        ifm = _Obj(shape=Shape4D(1, H, W, D), connection=None)
+        ofm = _Obj(shape=Shape4D(1, H, W, D))
+        t_in, t_out = _Obj(name="in", purpose=None), _Obj(name="out", purpose=None)
+        table = _Obj(name="table", purpose=TensorPurpose.LUT, shape=[1, 1, 1, 256], mem_area=MemArea.Shram, src_tensor=_Obj(name="table_src", mem_area=MemArea.Dram))
+        parent_op = _Obj(attrs={"skirt": [0, 0, 0, 0], "explicit_padding": [0, 0, 0, 0], "ksize": [1, 1, 1, 1]}, read_offsets=[None, None], read_shapes=[None, None],
+                         write_offset=None, write_shape=None, activation_lut=table, type=Op.AvgPool, inputs=[t_in, table], activation=None,
+                         get_ifm_ifm2_weights_biases_ofm=lambda: (t_in, None, None, None, t_out))
+        ps = _Obj(npu_block_type=NpuBlockType.Pooling, ofm_tensor=t_out, ops=[], primary_op=parent_op, name="op", ofm_shapes=[ofm.shape])
+        sop = _Obj(parent_ps=ps, parent_op=parent_op, ifm=ifm, ifm2=None, ofm=ofm, kernel=Kernel(1, 1), op_type=Op.AvgPool,
+                   resampling_mode=resampling_mode.NONE, reversed_operands=False, index=0, name="op")
+        info = _Obj(cascade=0, block_config=_Obj(old_style_representation=lambda: [1, 1, 1, 16]), ofm_depth_slices=[16 * i for i in range(nslices + 1)],
+                    stripe=Shape4D(1, C, W, D), npu_weights_tensor=None, npu_scales_tensor=None, buffered_weight_tensors=[])
+        cmds = list(gen.generate_high_level_commands_for_sched_op(sop, _Obj(cost_map={sop: info}, cascades={})))
+    claims = []
+    loaded = False   # a table DMA seen since the last stripe of the previous row group
+    cur_row = None
+    n = 0
+    for cmd in cmds:
+        if isinstance(cmd, DMA) and cmd.out_tensor is table:
+            loaded = True
+        elif isinstance(cmd, NpuStripe):
+            row = cmd.ofm_box.start_coord[1]
+            new_group = cur_row is None or not (z3.is_true(z3.simplify(L(row) == L(cur_row))))
+            if new_group:
+                claims.append(("row group %d: the table is loaded in front of its first stripe" % n, loaded))
+                n += 1
+                cur_row = row
+            loaded = False
+    claims.append(("at least one stripe generated", n >= 1))
+    return claims
+
+
+FUNCS = {"lut_dma": lut_dma, "rolling_dims": rolling_dims, "ifm_fuse": ifm_fuse, "format_rules": format_rules, "buffering": buffering, "lut": lut, "wbuf": wbuf, "rolling": rolling, "lr_rolling": lr_rolling, "build_twice": build_twice, "memcpy": memcpy, "wbuf_sizes": wbuf_sizes}
 
 
 def instances(tier, seed):
@@ -452,6 +502,9 @@ def instances(tier, seed):
         for n in (1, 2, 3, 4):
             out.append(dict(key="lut/%s/n%d" % (accel, n), fn="lut", params=dict(accel=accel, n=n), weight=10 ** n))
     out.append(dict(key="rolling_dims", fn="rolling_dims", params={}))
+    for C in (1, 2, 3):
+        for nsl in (1, 2):
+            out.append(dict(key="lut_dma/c%d/slices%d" % (C, nsl), fn="lut_dma", params=dict(C=C, nslices=nsl)))
     for kind in ("unary", "binary", "memcpy"):
         out.append(dict(key="ifm_fuse/%s" % kind, fn="ifm_fuse", params=dict(kind=kind), weight=20))
     for nslices in range(1, 8):
